@@ -154,6 +154,12 @@ impl<'a> Gen<'a> {
         self.o.direct(Address::from_bytes(&b).as_ref() == Ok(a), "from_bytes(as_bytes(a))==a", args.clone(), format!("{:?}", Address::from_bytes(&b)), "a".into());
         self.o.direct(Address::from_str(&txt).as_ref() == Ok(a), "from_str(to_string(a))==a", args.clone(), format!("{:?}", Address::from_str(&txt)), "a".into());
         self.o.direct(Address::from_hex(a.as_hex()).as_ref() == Ok(a), "from_hex(as_hex(a))==a", args.clone(), a.as_hex(), "a".into());
+        { use hex::ToHex;
+          let (lo, up): (String, String) = (a.encode_hex(), a.encode_hex_upper());
+          self.o.direct(lo == a.as_hex() && up == a.as_hex().to_uppercase(), "hex::ToHex forms == as_hex (lower / upper case)", args.clone(), format!("{} {}", lo, up), a.as_hex());
+          self.o.direct(Address::from_hex(&up).as_ref() == Ok(a), "from_hex(encode_hex_upper(a))==a", args.clone(), up.clone(), "a".into());
+          let sh = monero::consensus::encode::serialize_hex(a);
+          self.o.direct(sh == hex(&serialize(a)), "serialize_hex == hex(serialize)", args.clone(), sh, hex(&serialize(a))); }
         let ser = serialize(a);
         let mut cur = std::io::Cursor::new(&ser[..]);
         let back = Address::consensus_decode(&mut cur);
@@ -250,6 +256,20 @@ pub fn run(o: &mut Out, tier: &str, seed: u64) {
         g.forms(&a, n, k, &pid);
         addrs.push(a);
     } } }
+    // the key-pair constructors: a standard address of the public keys of the pair, on the requested network
+    for n in NETS { for _ in 0..(if thorough { 10 } else { 3 }) {
+        use monero::util::key::{KeyPair, ViewPair, PrivateKey};
+        let mk = |r: &mut Rng| { let mut b = r.arr32(); b[31] &= 0x0f; PrivateKey::from_slice(&b).unwrap() };
+        let (sp, vw) = (mk(&mut g.rng), mk(&mut g.rng));
+        let (ps, pv) = (PublicKey::from_private_key(&sp), PublicKey::from_private_key(&vw));
+        let want = Address::standard(n, ps, pv);
+        let a1 = Address::from_keypair(n, &KeyPair { view: vw, spend: sp });
+        let a2 = Address::from_viewpair(n, &ViewPair { view: vw, spend: ps });
+        let id = format!("c12_fmt {} Standard {} {} -", net_name(n), hex(ps.as_bytes()), hex(pv.as_bytes()));
+        g.o.direct(a1 == want && a1.addr_type == AddressType::Standard && a1.network == n, "Address::from_keypair == standard address of the pair's public keys", id.clone(), a1.to_string(), want.to_string());
+        g.o.direct(a2 == want && a2.addr_type == AddressType::Standard && a2.network == n, "Address::from_viewpair == standard address of the pair's public keys", id.clone(), a2.to_string(), want.to_string());
+        g.forms(&a1, n, "Standard", &[]); g.forms(&a2, n, "Standard", &[]);
+    } }
     // c12_fmt with unusable arguments
     let a0 = addrs[0];
     g.o.op(format!("c12_fmt Mainnet Standard {} {} -", hex(&[0xff; 32]), hex(a0.public_view.as_bytes())), true);
